@@ -31,15 +31,24 @@ from nauyaca.client.session import GeminiClient  # noqa: E402
 REAL = {"u1": "gemini://h1.ex/a", "u2": "gemini://h1.ex/a?x=1", "u3": "gemini://h2.ex:1966/a", "u4": "gemini://h1.ex:1966/a",
         "u5": "gemini://h3.ex/deep/er", "u6": "gemini://h2.ex:1966/a/", "u7": "gemini://h3.ex/"}
 INV = {v: k for k, v in REAL.items()}
+# other spellings of the same URLs (same normal form): a server may write its redirect targets any of these ways
+VARIANTS = {"u1": ["gemini://h1.ex:1965/a", "gemini://h1.ex/a?", "gemini://H1.EX/a"], "u2": ["gemini://h1.ex:1965/a?x=1"],
+            "u3": ["gemini://H2.ex:1966/a"], "u4": ["gemini://h1.EX:1966/a?"], "u5": ["gemini://h3.ex:1965/deep/er"],
+            "u6": ["gemini://h2.ex:1966/a/?"], "u7": ["gemini://h3.ex", "gemini://h3.ex:1965", "gemini://h3.ex?"]}
+
+
+def spelling(rnd):
+    """One spelling per URL for a whole run (the caller and every server use it), canonical for most."""
+    return {u: (rnd.choice(VARIANTS[u]) if rnd.random() < 0.35 else REAL[u]) for u in REAL}
 DERS = {"h1.ex:1965": make_cert("ec", "h1")[2], "h2.ex:1966": make_cert("rsa", "h2")[2], "h1.ex:1966": make_cert("ec", "h1b")[2],
         "h3.ex:1965": make_cert("ed25519", "h3")[2]}
 _CTX = None
 
 
-def meta_for(ans, rnd):
+def meta_for(ans, rnd, spell=REAL):
     k = ans["k"]
     if k == "redirect":
-        return "3%d %s" % (rnd.choice([0, 1]), REAL[ans["to"]])
+        return "3%d %s" % (rnd.choice([0, 1]), spell[ans["to"]])
     if k == "nongemini":
         return "30 " + rnd.choice(["https://example.com/", "http://h1.ex/a", "gopher://h1.ex/", "mailto:a@b", "titan://h1.ex/a;size=0",
                                    "geminix://h1.ex/", "Gemini://h1.ex/a", "//h1.ex/a"])
@@ -61,6 +70,7 @@ class Net:
             _CTX.verify_mode = _ssl.CERT_NONE
         self.G = G
         self.rnd = rnd
+        self.spell = spelling(rnd)
         self.loop = VLoop()
         asyncio.set_event_loop(self.loop)
         self.dir = tempfile.mkdtemp(prefix="vf-redir-", dir="/dev/shm" if os.path.isdir("/dev/shm") else None)
@@ -140,7 +150,7 @@ class Peer(FakeTransport):
             self.net.lines.append(line)
             u = INV.get(line)
             ans = self.net.G.get(u) if u else None
-            header = meta_for(ans, self.net.rnd) if ans else "51 not in this world"
+            header = meta_for(ans, self.net.rnd, self.net.spell) if ans else "51 not in this world"
             body = b"FINAL-CONTENT\n" if header.startswith("20") else b""
             self.loop.call_soon(self._answer, header.encode() + b"\r\n" + body)
 
@@ -238,7 +248,7 @@ def main(pid="C16", rep=None, finish=True):
             net = Net(G, rnd)
             try:
                 cl = net.client(mx)
-                res, resp = net.run(cl.get(REAL[start], follow_redirects=follow))
+                res, resp = net.run(cl.get(net.spell[start], follow_redirects=follow))
                 ok = judge(rep, G, start, mx, follow, res, net, s["result"], s["conns"], "TLC-enumerated graph")
                 # every hop verified: a pin row exists for every host:port that was contacted
                 rows = {"%s:%s" % (h["hostname"], h["port"]) for h in cl.tofu_db.list_hosts()}
@@ -276,8 +286,8 @@ def main(pid="C16", rep=None, finish=True):
                 want, wc = ("final" if G[start]["k"] == "final" else "redirect-returned"), 1
             net = Net(G, rnd, tofu=rnd.random() < 0.7)
             try:
-                res, resp = net.run(net.client(mx).get(REAL[start], follow_redirects=follow))
-                judge(rep, G, start, mx, follow, res, net, want, wc, "random graph")
+                res, resp = net.run(net.client(mx).get(net.spell[start], follow_redirects=follow))
+                judge(rep, G, start, mx, follow, res, net, want, wc, "random graph (spellings %s)" % {k_: v for k_, v in net.spell.items() if v != REAL[k_]})
                 m += 1
             finally:
                 net.close()
@@ -299,7 +309,7 @@ def main(pid="C16", rep=None, finish=True):
                 cl = net.client(mx)
 
                 async def both():
-                    return await asyncio.gather(cl.get(REAL[s1]), cl.get(REAL[s2]), return_exceptions=True)
+                    return await asyncio.gather(cl.get(net.spell[s1]), cl.get(net.spell[s2]), return_exceptions=True)
                 task = net.loop.create_task(both())
                 for _ in range(400):
                     net.loop.run_idle()
